@@ -93,6 +93,10 @@ PROPS['C20'] = dict(modules=['Hagall.Props.C20', 'Hagall.Props.C20Prim'], profil
                     topics=slice_of(['quadSample', 'groundPlane', 'region', 'debugInfo'], outs={'groundPlaneResp', 'regionResp', 'debugInfoResp', 'error'}),
                     trusted=['go/cmd/grid (grid harness, exact-arithmetic monitors)', 'Lean Float32 = IEEE binary32 as compiled by leanc; Go float32 on amd64 without FMA'])
 
+PROPS['C11'] = dict(modules=['Hagall.Props.C11'], profiles=['pose', 'mixed', 'join'], n=(240, 4000), focus={'updatePose', 'entityDelete', 'join'},
+                    topics=slice_of(['updatePose', 'entityDelete', 'join', 'disconnect'], kinds=['queue'],
+                                    outs={'poseBcast', 'sessionState', 'entityDeleteBcast'}))
+
 # every property's obligations include the facts it rests on (regenerated from the source on every run)
 ABS = {'C14': ['Hagall.Gen.AbsCustom'], 'C17': ['Hagall.Gen.AbsFlags'], 'C04': ['Hagall.Gen.AbsDispatch'],
        'C18': ['Hagall.Gen.AbsLatency'], 'C19': ['Hagall.Gen.AbsChans'], 'C08': ['Hagall.Gen.AbsChans', 'Hagall.Gen.AbsDispatch']}
